@@ -1756,8 +1756,9 @@ def run(ck):
     ck.cov["trusted_base"] = [
         "Coq 8.16.1 kernel, coqc; vm_compute for model evaluation",
         "hand-written model coq/c06/Model_C06.v of compiler/map.rs, the two interner passes of compiler/compiler.rs, "
-        "Engine::run_raw_program / raw_program_to_executable, GlobalSlotRecycler::{recycle,visit_closure}, jit_compile_lambda "
-        "(entry op code overwrite), env.rs slot accessors",
+        "Engine::run_raw_program / raw_program_to_executable, GlobalSlotRecycler::{recycle,visit_closure,visit_heap_allocated,"
+        "visit_mutable_vector} with MarkAndSweepContext::{mark_heap_reference,mark_heap_vector} and take_marks/restore_marks, "
+        "jit_compile_lambda (entry op code overwrite), env.rs slot accessors",
         "translator in checks/c06.py (regex parsers over the named functions; a shape it cannot find is a broken tie)",
         "history renderers in checks/c06.py (history -> Steel source, history -> Coq term) and the correspondence harness "
         "(harness/src/bin/evalsrv.rs, canonical value rendering in harness/src/lib.rs)",
@@ -1767,9 +1768,11 @@ def run(ck):
     ck.assumptions = [
         "run-time semantics of closures is abstracted to the global-touching instructions of (list item ...) bodies; local "
         "computation, the optimiser and native code generation are outside the model (C01/C02)",
-        "references to globals held only by native frames or by other threads' stacks, heap cells (boxes, mutable vectors) "
-        "and module requires are covered by the engine-vs-oracle correspondence only in so far as the generator reaches them "
-        "(module requires and threads: not generated in this version)",
+        "heap cells (boxes, mutable vectors, assigned captured variables) are modelled as one kind of cell visited through "
+        "the mark bits; an allocated cell is taken to carry its mark outside a collection (allocate sets it); structs are "
+        "modelled as immutable one-field records",
+        "references to globals held only by native frames or by other threads' stacks and module requires are not "
+        "generated in this version",
         "reading a binding whose define has not run yet is outside the envelope (engine: error or void depending on the slot)",
     ]
     # long histories are deep terms / long strings for coqc: lift the stack soft limit for the child processes
